@@ -57,6 +57,13 @@ def shared_reshuffle(node):
     for n in progs.walk(node):
         if n['op'] == 'tile' and n['r'] >= 2 and has_op(n['in'], {'reshuffle'}):
             return True
+        if n['op'] == 'concat' and n.get('share'):
+            # tile(r) IS the concatenation of one object r times; listing the object twice by hand is the same thing
+            seen = []
+            for c in n['ins']:
+                if c in seen and has_op(c, {'reshuffle'}):
+                    return True
+                seen.append(c)
     return False
 
 
